@@ -253,7 +253,9 @@ func runC07(c *Ctx, r *Rec) {
 				continue
 			}
 			construct := "agent." + cr.n.Obj().Name() + "." + f.Name()
-			if ws := fw[f.Origin()]; len(ws) > 0 {
+			if ws := fw[f.Origin()]; len(ws) > 0 && lazilyMadeImmutable(c, cr.info, f, ws, fw) {
+				r.ok("D5-stateless", construct, c.pos(f.Pos()), "made on first use (under a nil test of the field, from nothing but the collator itself) and an object of a type whose fields are never written after construction: nothing a ranking could leave behind")
+			} else if len(ws) > 0 {
 				r.fail("D5-stateless", construct, c.pos(ws[0].Pos), fmt.Sprintf("the collator field %s is %s in %s after construction: a ranking then depends on what was ranked before (remembered keys, counters, caches), not on its two operands alone", f.Name(), ws[0].How, ws[0].In.Name.Name))
 			} else {
 				r.ok("D5-stateless", construct, c.pos(f.Pos()), "never written after construction")
@@ -866,7 +868,15 @@ func checkRankComposites(c *Ctx, r *Rec, cr *collRoles) {
 			r.check(bad == "", "D8-operand-symmetry", construct, c.pos(fs.Pos()), fmt.Sprintf("%d recursive call(s), each on the same part of first and of second, in order", len(calls)), bad)
 			// D7 bounds: a loop bounded by one operand's size that also indexes the other needs an
 			// earlier exit for the case that the bounding operand is the longer one
-			if bound != nil && mir.side(bound) >= 0 {
+			typeLevel := false
+			if bound != nil {
+				// the number of methods or fields is a property of the type, and both operands are
+				// of one type here: neither is "the longer one"
+				if _, mname, _, ok := methodCall(resolveInit(info, fd, bound)); ok && (mname == "NumMethod" || mname == "NumField") {
+					typeLevel = true
+				}
+			}
+			if bound != nil && mir.side(bound) >= 0 && !typeLevel {
 				bside := mir.side(bound)
 				excluded, compared := false, false
 				for _, st := range fd.Body.List {
@@ -1088,20 +1098,61 @@ func checkRankComposites(c *Ctx, r *Rec, cr *collRoles) {
 					// the sorter uses this collator's own ranking
 					rx, _, _, _ := methodCall(sortCall)
 					src := resolveInit(info, fd, rx)
+					owner := fd
+					// the sorter may come out of a private method of the collator that makes it on
+					// first use and keeps it in a field: follow the method's result to the field's
+					// one assignment
+					for hop := 0; hop < 2; hop++ {
+						hrx, hname, hcall, ok := methodCall(src)
+						if !ok || len(hcall.Args) != 0 || !isObj(info, hrx, recvObj(info, owner)) || cr.ms[hname] == nil || ast.IsExported(hname) {
+							break
+						}
+						hd := cr.ms[hname]
+						var ret ast.Expr
+						inspectNoLit(hd.Body, func(y ast.Node) bool {
+							if rs, ok := y.(*ast.ReturnStmt); ok && len(rs.Results) == 1 {
+								ret = ast.Unparen(rs.Results[0])
+							}
+							return true
+						})
+						if ret == nil {
+							break
+						}
+						owner = hd
+						src = resolveInit(info, hd, ret)
+						if f := selectorField(info, src); f != nil {
+							var rhs []ast.Expr
+							ast.Inspect(hd.Body, func(y ast.Node) bool {
+								if as, ok := y.(*ast.AssignStmt); ok && len(as.Lhs) == 1 && len(as.Rhs) == 1 && selectorField(info, as.Lhs[0]) == f {
+									rhs = append(rhs, ast.Unparen(as.Rhs[0]))
+								}
+								return true
+							})
+							if len(rhs) == 1 {
+								src = rhs[0]
+							}
+						}
+					}
 					okRanker := false
+					resolved := false
 					if _, mname, call, ok := methodCall(src); ok && mname == "MakeWithRanker" && len(call.Args) == 1 {
-						if se, ok := ast.Unparen(call.Args[0]).(*ast.SelectorExpr); ok && isObj(info, se.X, recvObj(info, fd)) {
+						resolved = true
+						if se, ok := ast.Unparen(call.Args[0]).(*ast.SelectorExpr); ok && isObj(info, se.X, recvObj(info, owner)) {
 							if m := cr.ms[se.Sel.Name]; m != nil && cr.returnsRank(c, m) {
 								okRanker = true
 							}
 						}
+					} else if _, mname, _, ok := methodCall(src); ok && mname == "Make" {
+						resolved = true
 					}
-					if !okRanker {
+					if !resolved {
+						bad = "skip: where the sorter of the key array comes from is not recognisable (neither made here nor in a private method of the collator)"
+					} else if !okRanker {
 						bad = "the keys are not sorted with this collator's own ranking function"
 					}
 				}
 			}
-			r.check(bad == "", "D6-keys-sorted", construct, c.pos(fd.Pos()), fmt.Sprintf("%d key arrays sorted by this collator before the pairwise loop", len(keyVars)), bad)
+			r.verdict("D6-keys-sorted", construct, c.pos(fd.Pos()), fmt.Sprintf("%d key arrays sorted by this collator before the pairwise loop", len(keyVars)), bad)
 		}
 	}
 	r.floor("D8-operand-symmetry", 1)
@@ -1249,4 +1300,98 @@ func checkSizesDoNotDecideFirst(c *Ctx, r *Rec, cr *collRoles, fd *ast.FuncDecl)
 	if bad != "" {
 		r.fail("D7-lexicographic", construct, c.pos(fd.Pos()), bad)
 	}
+}
+
+// lazilyMadeImmutable: every write of the field is `recv.f = <call>` under the condition
+// `recv.f == nil`, the call mentions no parameter of the method it stands in, and the object it
+// makes is of a module type none of whose fields is ever written after construction.  Such a
+// field holds no history: it is a constant of the object that is computed late.
+func lazilyMadeImmutable(c *Ctx, info *types.Info, f *types.Var, ws []fieldWrite, fw map[*types.Var][]fieldWrite) bool {
+	for _, w := range ws {
+		if w.In == nil || w.In.Body == nil || !strings.HasPrefix(w.How, "assigned") {
+			return false
+		}
+		winfo := c.infoFor(w.In)
+		if winfo == nil {
+			return false
+		}
+		recv := recvObj(winfo, w.In)
+		var as *ast.AssignStmt
+		ast.Inspect(w.In.Body, func(x ast.Node) bool {
+			if a, ok := x.(*ast.AssignStmt); ok && a.Pos() <= w.Pos && w.Pos < a.End() && len(a.Lhs) == 1 && len(a.Rhs) == 1 && selectorField(winfo, a.Lhs[0]) == f.Origin() {
+				as = a
+			}
+			return true
+		})
+		if as == nil || recv == nil {
+			return false
+		}
+		call, ok := ast.Unparen(as.Rhs[0]).(*ast.CallExpr)
+		if !ok {
+			return false
+		}
+		// nothing but the receiver goes into the call
+		for _, p := range paramObjs(winfo, w.In) {
+			mentioned := false
+			ast.Inspect(call, func(y ast.Node) bool {
+				if id, ok := y.(*ast.Ident); ok && winfo.Uses[id] == types.Object(p) {
+					mentioned = true
+				}
+				return true
+			})
+			if mentioned {
+				return false
+			}
+		}
+		// under `recv.f == nil`
+		g := newFG(winfo, w.In.Body)
+		pt, ok := g.locate(as)
+		if !ok {
+			return false
+		}
+		guarded := false
+		for _, ec := range g.edgeConds(pt) {
+			be, ok := ast.Unparen(ec.cond).(*ast.BinaryExpr)
+			if !ok {
+				continue
+			}
+			isNil := func(e ast.Expr) bool { id, ok := ast.Unparen(e).(*ast.Ident); return ok && id.Name == "nil" }
+			isF := func(e ast.Expr) bool { return selectorField(winfo, e) == f.Origin() }
+			if ((isF(be.X) && isNil(be.Y)) || (isF(be.Y) && isNil(be.X))) && ((be.Op == token.EQL && ec.polarity) || (be.Op == token.NEQ && !ec.polarity)) {
+				guarded = true
+			}
+		}
+		if !guarded {
+			return false
+		}
+		// what is made: a module type whose fields are never written after construction
+		t := winfo.TypeOf(call)
+		var impl *types.Named
+		if n := derefNamed(t); n != nil {
+			if _, isIface := n.Underlying().(*types.Interface); isIface {
+				ims := c.implementers(n)
+				var fit []*types.Named
+				for _, im := range ims {
+					if implementsInst(im, n) {
+						fit = append(fit, im)
+					}
+				}
+				if len(fit) == 1 {
+					impl = fit[0]
+				}
+			} else {
+				impl = n
+			}
+		}
+		st := structOf(impl)
+		if st == nil {
+			return false
+		}
+		for i := 0; i < st.NumFields(); i++ {
+			if len(fw[st.Field(i).Origin()]) > 0 {
+				return false
+			}
+		}
+	}
+	return true
 }
